@@ -48,7 +48,8 @@ DeleteFaults == {"none", "attr1", "attr2", "attr3", "del1", "list1"}
 \* resumed build starts) and commit after the resumed build has finished - they started after the index was
 \* started, so they are protected all the same (only when the interrupted build had stored a chunk: otherwise
 \* the resumed build is a new index, started after these uploads)
-Mk(pre, c, crash, bf, between, df, pb, inc, rf, early) ==
+\* tf: "touch1" = during the uploads in between, the first refresh (Touch) of a re-used blob fails transiently
+Mk(pre, c, crash, bf, between, df, pb, inc, rf, early, tf) ==
   LET vis0 == VisAfter(pre, {})
       blobs0 == UNION {KeysOf(b) : b \in EverUp(pre)}
       index == UNION {KeysOf(b) : b \in vis0}
@@ -57,7 +58,7 @@ Mk(pre, c, crash, bf, between, df, pb, inc, rf, early) ==
       \* reference outcome: blobs written before the index and not referenced go; later ones stay
       newBlobs == UNION {KeysOf(b) : b \in betw} \ blobs0
       refDeleted == blobs0 \ index
-  IN [pre |-> pre, prebuild |-> pb, chunk |-> c, crash |-> crash, buildfault |-> bf, resumefault |-> rf, early |-> early /\ crash # 99 /\ crash >= 1 /\ pb = 0 /\ betw # {}, between |-> betw, deletefault |-> df,
+  IN [pre |-> pre, prebuild |-> pb, chunk |-> c, crash |-> crash, buildfault |-> bf, resumefault |-> rf, touchfault |-> tf, early |-> early /\ crash # 99 /\ crash >= 1 /\ pb = 0 /\ betw # {}, between |-> betw, deletefault |-> df,
       visible |-> visEnd, index |-> index, blobsBefore |-> blobs0 \cup newBlobs,
       refDeleted |-> refDeleted,
       \* blobs re-used by an upload that started after the index must survive: the reference deletes
@@ -77,20 +78,21 @@ Pick ==
               \E pb \in {R(0..Len(pre))}, inc \in {R(BOOLEAN)} :
               \E rf \in {R(IF crash = 99 THEN {"none"} ELSE {"none", "scanlist"})} :
               case' = Mk(pre, c, crash, IF crash = 99 THEN bf ELSE "none", bw, df, pb,
-                         inc /\ crash = 99 /\ bf = "none" /\ df = "none", rf, R(BOOLEAN))
+                         inc /\ crash = 99 /\ bf = "none" /\ df = "none", rf, R(BOOLEAN), R({"none", "none", "touch1"}))
        ELSE IF Late
        THEN \E pre \in {p \in Pres : \E i \in DOMAIN p : p[i] = [op |-> "up", b |-> "b5"]} :
               \E crash \in {99, 10, 12}, bw \in {{b} : b \in Bundles \ {"b5"}} :
                 \E rf \in (IF crash = 99 THEN {"none"} ELSE {"none", "scanlist"}) :
                 \E early \in (IF crash = 99 THEN {FALSE} ELSE BOOLEAN) :
-                case' = Mk(pre, 1, crash, "none", bw, "none", 0, crash = 99, rf, early)
+                case' = Mk(pre, 1, crash, "none", bw, "none", 0, crash = 99, rf, early, "none")
        ELSE \E pre \in Pres, c \in ChunkSizes, crash \in Crashes, bw \in {{}} \cup {{b} : b \in Bundles} :
               \E f \in {"none"} \cup (IF crash = 99 THEN {"chunkput1", "rootget1", "attr1", "attr2", "del1"} ELSE {}) :
                 \E pb \in (IF crash = 99 /\ f = "none" THEN 0..Len(pre) ELSE {0}) :
                 \E inc \in (IF crash = 99 /\ f = "none" /\ pb = 0 /\ bw # {} THEN BOOLEAN ELSE {FALSE}) :
                 \E rf \in (IF crash \in {1, 2} /\ bw = {} THEN {"none", "scanlist"} ELSE {"none"}) :
                 case' = Mk(pre, c, crash, IF f \in {"chunkput1", "rootget1"} THEN f ELSE "none", bw,
-                           IF f \in {"attr1", "attr2", "del1"} THEN f ELSE "none", pb, inc, rf, crash \in {1, 2} /\ bw # {})
+                           IF f \in {"attr1", "attr2", "del1"} THEN f ELSE "none", pb, inc, rf, crash \in {1, 2} /\ bw # {},
+                           IF f = "none" /\ crash = 99 /\ bw # {} /\ ~inc THEN "touch1" ELSE "none")
   /\ stage' = "done"
   /\ UNCHANGED pvars
 
